@@ -92,7 +92,9 @@ func OpenDir(baseDir string) (*Bundle, error) {
 		}
 		ret.remotePackageDirs[pkgAddr] = localDir
 
-		if rpm.Meta.GitCommitID != "" {
+		// The manifest records either field on its own (a fetcher may know the
+		// commit message but not its id), so either is enough to restore it.
+		if rpm.Meta.GitCommitID != "" || rpm.Meta.GitCommitMessage != "" {
 			ret.remotePackageMeta[pkgAddr] = PackageMetaWithGitMetadata(
 				rpm.Meta.GitCommitID,
 				rpm.Meta.GitCommitMessage,
